@@ -354,6 +354,8 @@ def _run(ctx, cuqi, M, thorough, rng, ckpath):
                         s.load_checkpoint(bad)
                         out.append("accepted")
                     except ValueError:
+                        if not s._is_initialized:
+                            raise      # `_ensure_initialized()` itself refused (configuration rejected): the op fails as a whole
                         out.append("refused")
                 elif op == "reinit":
                     s.reinitialize()
